@@ -413,9 +413,15 @@ def positive_number_mechanism(chk, drv, schemas, mech, vz, vx):
     for s in schemas:
         out, rec, err = run_positive_number(s)
         runs.append((s, out, rec, err))
-    models = drv.batch([("posnum", {"schema": enc(s), "orc": wire_orc(rec) if err is None else [], "vz": vz, "vx": vx})
+    models = drv.batch([("posnum", {"schema": enc(s), "orc": wire_orc(rec) if err is None else [], "vz": vz, "vx": vx,
+                                    "judge": [enc(o["value"]) for o in out] if out is not None else []})
                         for s, out, rec, err in runs])
-    verdicts = iter(judge_batch(chk, drv, [(s, [o["value"] for o in out]) for s, out, rec, err in runs if out is not None]))
+    verdicts = iter([m.get("valid", []) for (s, out, rec, err), m in zip(runs, models) if out is not None])
+    for (s, out, rec, err), m in zip(runs, models):  # independent oracle on the same values
+        if out is not None:
+            ref = js_judge(s, [o["value"] for o in out])
+            if ref is not None and ref != m.get("valid"):
+                raise InfraError(f"Lean validF != jsonschema on {s}: {[o['value'] for o in out]} lean={m.get('valid')} jsonschema={ref}")
     pending = []
     for (s, out, rec, err), m in zip(runs, models):
         if err is not None:
@@ -824,12 +830,235 @@ def resolve_cover_violations(chk, drv, pending, mech):
                                   "value": o["value"], "description": o["text"], "label": o["mode"], "value_location": o["loc"]})
 
 
+# ---- mechanism 3: builder._iter_coverage_cases -----------------------------------------------------------------------
+
+KF_BODY = "C03:_iter_coverage_cases:body-case-labelled-with-first-value-mode"
+KF_TEMPLATE = "C03:_iter_coverage_cases:negative-template-value-in-positive-case"
+KF_OVERWRITE = "C03:Template.with_container:component-label-hides-negative-template-value"
+KF_OMITTED = "C03:_iter_coverage_cases:required-parameter-without-values-omitted-from-positive-case"
+
+
+@contextmanager
+def recording_cover_calls():
+    """record what every *top-level* cover_schema_iter call (those made by builder.py) yields"""
+    calls = []
+    active = [0]
+    orig = cov.cover_schema_iter
+
+    def wrapper(ctx, schema, seen=None):
+        if active[0]:
+            return orig(ctx, schema, seen)
+        entry = {"location": ctx.location, "values": []}
+        calls.append(entry)
+
+        def gen():
+            it = orig(ctx, schema, seen)
+            while True:
+                active[0] += 1
+                try:
+                    v = next(it)
+                except StopIteration:
+                    return
+                finally:
+                    active[0] -= 1
+                entry["values"].append(v)
+                yield v
+        return gen()
+
+    with mock.patch.object(cov, "cover_schema_iter", wrapper):
+        yield calls
+
+
+def classify_case(description: str) -> str:
+    if description == "Default positive test case":
+        return "default-positive"
+    m = re.match(r"^Unspecified HTTP method: (.*)$", description)
+    if m:
+        return f"unspecified-method:{m.group(1)}"
+    m = re.match(r"^Duplicate `(.*)` query parameter$", description, re.S)
+    if m:
+        return f"duplicate:{m.group(1)}"
+    m = re.match(r"^Missing `(.*)` at (\w+)$", description, re.S)
+    if m:
+        return f"missing:{m.group(1)}:{m.group(2)}"
+    if description == "Only required properties":
+        return "only-required"
+    m = re.match(r"^All required properties and optional '(.*)'$", description, re.S)
+    if m:
+        return f"required-and-optional:{m.group(1)}"
+    m = re.match(r"^All required and (\d+) optional properties$", description)
+    if m:
+        return f"required-and-n:{m.group(1)}"
+    return classify(description)
+
+
+def run_cases(ps, body, methods, modes_key):
+    import schemathesis
+    from schemathesis.generation.hypothesis.builder import _iter_coverage_cases
+    raw, path, method = GEN.build_operation_doc(ps, body, methods)
+    schema = schemathesis.openapi.from_dict(raw)
+    op = schema[path][method.upper()]
+    out, err = [], None
+    with recording_cover_calls() as calls:
+        try:
+            for c in _iter_coverage_cases(op, list(MODES[modes_key])):
+                d = c.meta.phase.data
+                conts = {}
+                for kind in ("query", "path_parameters", "headers", "cookies"):
+                    v = getattr(c, kind)
+                    if v is not None and hasattr(v, "keys"):
+                        conts[kind] = sorted(v.keys())
+                out.append({
+                    "method": c.method.upper(), "mode": c.meta.generation.mode.value,
+                    "comps": {k.value: v.mode.value for k, v in c.meta.components.items()},
+                    "desc": classify_case(d.description), "text": d.description, "parameter": d.parameter,
+                    "parameter_location": d.parameter_location, "containers": conts,
+                    "has_body": not isinstance(c.body, type(schemathesis.core.NOT_SET)),
+                })
+        except Exception as e:  # KeyError is modelled; anything else leaves the modelled fragment
+            err = e
+    params = [(p.location, p.name, bool(p.is_required)) for p in op.iter_parameters()]
+    documented = set(schema[path])
+    unexpected = sorted(m.upper() for m in ({"get", "put", "post", "delete", "options", "patch", "trace"} - {m.lower() for m in documented}))
+    return {"cases": out, "err": err, "calls": calls, "params": params, "method": method.upper(),
+            "n_bodies": len(body or []), "media_types": [mt for mt, _ in (body or [])], "unexpected": unexpected}
+
+
+def lv(g):
+    return {"mode": g.generation_mode.value, "desc": classify(g.description), "param": g.parameter}
+
+
+def cases_request(run, modes_key, vb):
+    np_, nb = len(run["params"]), run["n_bodies"]
+    calls = run["calls"]
+    if len(calls) < np_:
+        raise InfraError(f"cover_schema_iter calls {len(calls)} < parameters {np_}")
+    # a body alternative whose cover call was never made cannot happen: every alternative is visited
+    params = [{"location": loc, "name": name, "required": req, "values": [lv(g) for g in calls[i]["values"]]}
+              for i, (loc, name, req) in enumerate(run["params"])]
+    bodies = [{"mediaType": run["media_types"][j], "values": [lv(g) for g in calls[np_ + j]["values"]]}
+              for j in range(nb) if np_ + j < len(calls)]
+    neg_calls = [[lv(g) for g in c["values"]] for c in calls[np_ + nb:]]
+    return ("cases", {"vb": vb, "params": params, "hasBody": nb > 0, "bodies": bodies, "methods": run["unexpected"],
+                      "pos": "P" in modes_key, "neg": "N" in modes_key, "negCalls": neg_calls})
+
+
+def same_case(m, r, op_method):
+    if m["mode"] != r["mode"] or m["comps"] != r["comps"]:
+        return False
+    if m["desc"] != r["desc"] and "other" not in r["desc"]:
+        return False
+    if m["parameter"] != r["parameter"] or m["parameter_location"] != r["parameter_location"]:
+        return False
+    if (m["method"] or op_method) != r["method"]:
+        return False
+    for kind, content in m["contents"].items():
+        if kind == "body" or "generated" in content:
+            continue
+        names = sorted(n for n, _ in content["slots"])
+        if names != r["containers"].get(kind, []):
+            return False
+    return True
+
+
+def py_case_label_ok(r):
+    """independent reading of the statement on the real metadata: negative iff a component is negative, a parameter was
+    removed / duplicated, or the method is undocumented"""
+    structural = r["desc"].startswith(("missing:", "duplicate:", "unspecified-method:"))
+    want = structural or any(v == "negative" for v in r["comps"].values())
+    return (r["mode"] == "negative") == want
+
+
+def detect_body_variant(chk):
+    run = run_cases([], [("application/json", {"type": "integer", "minimum": 0, "maximum": 3})], ["post"], "PN")
+    bad = any(c["parameter_location"] == "body" and c["comps"].get("body") == "negative" and c["mode"] == "positive"
+              for c in run["cases"])
+    v = "asFound" if bad else "repaired"
+    chk.variants["_iter_coverage_cases:body-label"] = v
+    return v
+
+
+def cases_mechanism(chk, drv, ops, mech, vb):
+    """ops: [(params, body, methods, modes_key)]"""
+    runs = [(o, run_cases(*o)) for o in ops]
+    outs = drv.batch([cases_request(run, o[3], vb) for o, run in runs])
+    for (o, run), m in zip(runs, outs):
+        ps, body, methods, mk = o
+        key = [[list(p[:3]) + [p[3]] for p in ps], body, methods, mk]
+        real = run["cases"]
+        chk.case(mech, key=key, nontrivial=len(real) > 0 or run["err"] is not None,
+                 sample={"params": [list(p) for p in ps], "body": body, "modes": mk,
+                         "impl": [[c["mode"][:3], c["comps"], c["desc"]] for c in real[:6]]})
+        chk.feature(f"{mech}:modes={mk}")
+        if isinstance(m, dict) and "__err__" in m:
+            raise InfraError(f"model error {m}")
+        inp = {"params": [list(p) for p in ps], "body": body, "methods": methods, "modes": mk}
+        if run["err"] is not None:
+            chk.feature(f"{mech}:impl-raised:{type(run['err']).__name__}")
+            if isinstance(run["err"], KeyError) and "error" not in m:
+                chk.disagreement(mech, inp, "cases", "KeyError")
+            continue
+        if "error" in m:
+            chk.disagreement(mech, inp, "KeyError", [[c["mode"], c["desc"]] for c in real])
+            continue
+        mc = m["cases"]
+        agree = len(mc) == len(real) and all(same_case(a, b, run["method"]) for a, b in zip(mc, real))
+        if not agree:
+            i = next((i for i, (a, b) in enumerate(zip(mc, real)) if not same_case(a, b, run["method"])), min(len(mc), len(real)))
+            chk.disagreement(mech, inp, {"n": len(mc), "first_diff": mc[i] if i < len(mc) else None},
+                             {"n": len(real), "first_diff": real[i] if i < len(real) else None})
+        else:
+            chk.feature(f"{mech}:agree")
+        # ---- replay: the statement read on the real metadata, and on the contents-by-label of the (agreeing) model
+        for i, r in enumerate(real):
+            ok = py_case_label_ok(r)
+            chk.feature(f"{mech}:case-label:{'ok' if ok else 'WRONG'}")
+            if not ok:
+                if r["parameter_location"] == "body" and r["comps"].get("body") == "negative" and r["mode"] == "positive":
+                    sig = KF_BODY
+                elif r["mode"] == "positive":
+                    sig = KF_TEMPLATE
+                else:
+                    sig = "C03:_iter_coverage_cases:negative-case-without-negative-part"
+                chk.violation(sig, f"case '{r['text']}' is labelled {r['mode']} but its components are {r['comps']}",
+                              {"mechanism": "cases", **inp, "case_index": i, "case": {k: v for k, v in r.items()}})
+            if agree:
+                spec = mc[i].get("spec", {})
+                if spec and not spec.get("comps_ok", True):
+                    chk.violation(KF_OVERWRITE if r["mode"] == "positive" or True else "", f"case '{r['text']}': component labels {r['comps']} "
+                                  f"disagree with the labels of the values placed in the containers {mc[i]['contents']}",
+                                  {"mechanism": "cases", **inp, "case_index": i, "case": r, "contents": mc[i]["contents"]})
+                if spec and spec.get("comps_ok", True) and not spec.get("label_ok", True) and ok:
+                    chk.violation("C03:_iter_coverage_cases:case-label-differs-from-contents",
+                                  f"case '{r['text']}' labelled {r['mode']} but contents are {mc[i]['contents']}",
+                                  {"mechanism": "cases", **inp, "case_index": i, "case": r, "contents": mc[i]["contents"]})
+            # a required parameter that never received a value is silently absent from a positive case
+            if r["mode"] == "positive":
+                for loc, name, req in run["params"]:
+                    kind = {"query": "query", "path": "path_parameters", "header": "headers", "cookie": "cookies"}[loc]
+                    if req and name not in r["containers"].get(kind, []) and not r["desc"].startswith("missing:"):
+                        chk.violation(KF_OMITTED, f"positive case '{r['text']}' lacks the required {loc} parameter '{name}'",
+                                      {"mechanism": "cases", **inp, "case_index": i, "case": r})
+
+
 # ---- run / replay ---------------------------------------------------------------------------------------------------
+
+class Timer:
+    def __init__(self, chk):
+        self.chk, self.t = chk, __import__("time").time()
+
+    def lap(self, name):
+        now = __import__("time").time()
+        self.chk.notes.append(f"time {name}: {now - self.t:.1f}s")
+        self.t = now
+
 
 def run(chk):
     sx_examples.SCHEMATHESIS_BENCHMARK_SEED = chk.seed  # pins every Hypothesis draw of generate_one (in-process only)
     drv = chk.driver()
+    tm = Timer(chk)
     G.selfcheck(chk, 150 if not chk.thorough else 1500)
+    tm.lap("selfcheck")
     vz, vx = detect_number_variants(chk)
     chk.assumptions += [
         "oracle: a value returned by CoverageContext.generate_from_schema(s) is valid for s (hypothesis-jsonschema contract); "
@@ -844,10 +1073,12 @@ def run(chk):
     ]
     grid = list(numeric_grid(chk.thorough))
     positive_number_mechanism(chk, drv, grid, "positive_number:grid", vz, vx)
+    tm.lap("positive_number:grid")
     chk.notes.append(f"positive_number:grid is exhaustive over {len(grid)} schemas")
     # cover_schema_iter on a slice of the numeric grid x modes
     cases = [(s_, mk, "body") for s_ in grid[:: 97] for mk in ("P", "N", "PN")]
     cover_mechanism(chk, drv, cases, "cover:numeric", vz, vx)
+    tm.lap("cover:numeric")
     rng = chk.rng
     locs = ["body", "query", "header"]
 
@@ -858,16 +1089,31 @@ def run(chk):
                 for mk in ("P", "N", "PN"):
                     out.append((s_, mk, locs[(i // every) % 3]))
         return out
-    cover_mechanism(chk, drv, with_modes(list(GEN.string_grid()), 3), "cover:strings", vz, vx)
+    cover_mechanism(chk, drv, with_modes(list(GEN.string_grid()), 7), "cover:strings", vz, vx)
+    tm.lap("cover:strings")
     cover_mechanism(chk, drv, with_modes(list(GEN.array_grid()), 4), "cover:arrays", vz, vx)
-    cover_mechanism(chk, drv, with_modes(list(GEN.object_grid()), 4), "cover:objects", vz, vx)
+    tm.lap("cover:arrays")
+    cover_mechanism(chk, drv, with_modes(list(GEN.object_grid()), 7), "cover:objects", vz, vx)
+    tm.lap("cover:objects")
     cover_mechanism(chk, drv, with_modes(list(GEN.combinator_grid()), 2), "cover:combinators", vz, vx)
+    tm.lap("cover:combinators")
     rnd = [(s_, rng.choice(["P", "N", "PN", "PN"]), rng.choice(locs))
-           for s_ in GEN.random_sane(rng, chk.budget(500, 6000), depth=2 if not chk.thorough else 3)]
+           for s_ in GEN.random_sane(rng, chk.budget(400, 6000), depth=2 if not chk.thorough else 3)]
     cover_mechanism(chk, drv, rnd, "cover:random", vz, vx)
+    tm.lap("cover:random")
     odd = [(s_, rng.choice(["P", "N", "PN", "PN"]), rng.choice(locs))
-           for s_ in GEN.random_schemas(rng, chk.budget(150, 2000), depth=2)]
+           for s_ in GEN.random_schemas(rng, chk.budget(60, 2000), depth=2)]
     cover_mechanism(chk, drv, odd, "cover:random-odd", vz, vx)
+    tm.lap("cover:random-odd")
+    # builder._iter_coverage_cases
+    vb = detect_body_variant(chk)
+    ops = [(ps, body, ms, mk) for i, (ps, body, ms) in enumerate(GEN.operation_grid(chk.thorough))
+           for mk in (("P", "N", "PN") if chk.thorough else (("PN", "N", "P")[i % 3], "PN")[: 1 + (i % 2)])]
+    cases_mechanism(chk, drv, ops, "cases:grid", vb)
+    tm.lap("cases:grid")
+    rops = [(*GEN.random_operation(rng), rng.choice(["P", "N", "PN", "PN"])) for _ in range(chk.budget(150, 2000))]
+    cases_mechanism(chk, drv, rops, "cases:random", vb)
+    tm.lap("cases:random")
     chk.exhaustive = False
 
 
